@@ -1,7 +1,6 @@
 import LunarVerif.Proofs.C12
 /-! C12, remedies: every stored entry has a source response in the observable history; every run of the
-caching / throttling models satisfies the (code-faithful) Spec; the strict Spec follows outside the two
-excluded classes. -/
+caching model satisfies the Spec. -/
 set_option linter.unusedSectionVars false
 set_option linter.unusedSimpArgs false
 namespace LunarVerif.C12
@@ -13,7 +12,7 @@ variable {σ : Type} [DecidableEq σ]
 
 /-- `r0` is the response from which entry `e` under key `k` was stored. -/
 def CSrc (cfg : CCfg) (k : CKey σ) (e : Entry (Stored σ)) (r0 : PRec σ) : Prop :=
-  ∃ m u sel j r bl sz, r0.op = .resp m u sel j r bl sz ∧ k = ⟨m, u, j⟩ ∧ bl ≤ cfg.maxRec ∧
+  ∃ m u sel r bl sz, r0.op = .resp m u sel r bl sz ∧ k = ⟨m, u, sel⟩ ∧ bl ≤ cfg.maxRec ∧
     e.val.resp = r ∧ e.expiry = r0.t + cfg.ttl
 
 structure CInv (cfg : CCfg) (h : List (PRec σ)) (c : CCache σ) : Prop where
@@ -55,12 +54,12 @@ theorem cstep_inv (cfg : CCfg) (hmax : 0 ≤ cfg.maxBytes) (c : CCache σ) (h : 
   have same : ∀ o, CInv cfg (⟨c.now, op, o⟩ :: h) c := fun o =>
     cinv_shrink ⟨c.now, op, o⟩ hinv rfl (fun _ _ x => x) (Int.le_refl _) rfl rfl hinv.off hinv.size
   cases op with
-  | resp m u sel j r bl sz =>
+  | resp m u sel r bl sz =>
     simp only [cstep]
     by_cases hbig : bl > cfg.maxRec
     · simp only [hbig, if_true]; exact same _
     · simp only [hbig, if_false]
-      by_cases hhas : has c ⟨m, u, j⟩ = true
+      by_cases hhas : has c ⟨m, u, sel⟩ = true
       · simp only [hhas, if_true]; exact same _
       · simp only [hhas, Bool.false_eq_true, if_false]
         -- the store
@@ -80,7 +79,7 @@ theorem cstep_inv (cfg : CCfg) (hmax : 0 ≤ cfg.maxBytes) (c : CCache σ) (h : 
         constructor
         · intro k e hf
           rcases find?_set hf with ⟨hk, he, _⟩ | ⟨_, _, hb⟩ | ⟨_, hb⟩
-          · refine ⟨_, List.mem_cons_self, m, u, sel, j, r, bl, sz, rfl, hk, by omega, ?_, ?_⟩
+          · refine ⟨_, List.mem_cons_self, m, u, sel, r, bl, sz, rfl, hk, by omega, ?_, ?_⟩
             · rw [he]
             · rw [he]
           · obtain ⟨r0, hm, hs⟩ := hinv.src k e hb
@@ -95,9 +94,9 @@ theorem cstep_inv (cfg : CCfg) (hmax : 0 ≤ cfg.maxBytes) (c : CCache σ) (h : 
         · intro hx; rw [set_sizeOn] at hx; cases hx
         · intro _; rw [set_max]
         · exact sizeInv_set _ _ _ _ hs1
-  | req m u sel j =>
+  | req m u sel =>
     simp only [cstep]
-    cases get c ⟨m, u, j⟩ with
+    cases get c ⟨m, u, sel⟩ with
     | none => exact same _
     | some s => exact same _
   | fire i =>
@@ -118,30 +117,30 @@ theorem cstep_inv (cfg : CCfg) (hmax : 0 ≤ cfg.maxBytes) (c : CCache σ) (h : 
   | probe => simp only [cstep]; exact same _
 
 theorem cstep_recOk (cfg : CCfg) (hmax : 0 ≤ cfg.maxBytes) (c : CCache σ) (h : List (PRec σ)) (op : POp σ)
-    (hinv : CInv cfg h c) : cRecOk true cfg ⟨c.now, op, (cstep cfg c op).2⟩ h = true := by
+    (hinv : CInv cfg h c) : cRecOk cfg ⟨c.now, op, (cstep cfg c op).2⟩ h = true := by
   cases op with
-  | resp m u sel j r bl sz =>
+  | resp m u sel r bl sz =>
     simp only [cstep]
     by_cases hbig : bl > cfg.maxRec
     · simp [hbig, cRecOk]
-    · by_cases hhas : has c ⟨m, u, j⟩ = true
+    · by_cases hhas : has c ⟨m, u, sel⟩ = true
       · simp [hbig, hhas, cRecOk]
       · simp [hbig, hhas, cRecOk]
-  | req m u sel j =>
+  | req m u sel =>
     simp only [cstep]
-    cases hg : get c ⟨m, u, j⟩ with
+    cases hg : get c ⟨m, u, sel⟩ with
     | none => simp [cRecOk]
     | some s =>
       obtain ⟨e, hf, hv, hle⟩ := get_some hg
-      obtain ⟨r0, hm, m0, u0, sel0, j0, r, bl, sz, hop, hk, hbl, hr, hexp⟩ := hinv.src _ e hf
+      obtain ⟨r0, hm, m0, u0, sel0, r, bl, sz, hop, hk, hbl, hr, hexp⟩ := hinv.src _ e hf
       have ht := hinv.time r0 hm
       simp only [cRecOk]
       rw [List.any_eq_true]
       refine ⟨r0, hm, ?_⟩
-      have hk' : m0 = m ∧ u0 = u ∧ j0 = j := by
+      have hk' : m0 = m ∧ u0 = u ∧ sel0 = sel := by
         cases hk; exact ⟨rfl, rfl, rfl⟩
       rw [hv] at hr
-      simp only [cJustifies, hop, if_true]
+      simp only [cJustifies, hop]
       simp only [hk'.1, hk'.2.1, hk'.2.2, hbl, ← hr, decide_true, Bool.and_self, Bool.true_and, Bool.and_true,
         Bool.and_eq_true, decide_eq_true_eq]
       constructor <;> omega
@@ -160,8 +159,8 @@ theorem cstep_recOk (cfg : CCfg) (hmax : 0 ≤ cfg.maxBytes) (c : CCache σ) (h 
       simp; omega
 
 theorem crun_holdsRev (cfg : CCfg) (hmax : 0 ≤ cfg.maxBytes) (ops : List (POp σ)) (c : CCache σ)
-    (h : List (PRec σ)) (hinv : CInv cfg h c) (hh : choldsRev true cfg h = true) :
-    choldsRev true cfg ((crun cfg c ops).reverse ++ h) = true := by
+    (h : List (PRec σ)) (hinv : CInv cfg h c) (hh : choldsRev cfg h = true) :
+    choldsRev cfg ((crun cfg c ops).reverse ++ h) = true := by
   induction ops generalizing c h with
   | nil => simpa [crun] using hh
   | cons op ops ih =>
@@ -175,76 +174,6 @@ theorem crun_ops (cfg : CCfg) (ops : List (POp σ)) (c : CCache σ) : (crun cfg 
   induction ops generalizing c with
   | nil => rfl
   | cons op ops ih => simp [crun, ih]
-
-/-- Prop form of `noCollision`. -/
-def NoColl (ops : List (POp σ)) : Prop :=
-  ∀ a, a ∈ ops → ∀ b, b ∈ ops → ∀ s1 j1 s2 j2,
-    keyMaterial a = some (s1, j1) → keyMaterial b = some (s2, j2) → j1 = j2 → s1 = s2
-
-theorem noColl_of_noCollision {ops : List (POp σ)} (h : noCollision ops = true) : NoColl ops := by
-  intro a ha b hb s1 j1 s2 j2 h1 h2 hj
-  simp only [noCollision, List.all_eq_true] at h
-  have := h a ha b hb
-  simp only [h1, h2, hj, decide_true, Bool.not_true, Bool.false_or, decide_eq_true_eq] at this
-  exact this
-
-/-- Outside the excluded class the strict reading follows from the code-faithful one. -/
-theorem choldsRev_strict (cfg : CCfg) (h : List (PRec σ)) (hnc : NoColl (h.map (·.op)))
-    (hh : choldsRev true cfg h = true) : choldsRev false cfg h = true := by
-  induction h with
-  | nil => rfl
-  | cons r older ih =>
-    simp only [choldsRev, Bool.and_eq_true] at hh ⊢
-    have hnc' : NoColl (older.map (·.op)) := by
-      intro a ha b hb
-      exact hnc a (by simp only [List.map_cons]; exact List.mem_cons_of_mem _ ha) b
-        (by simp only [List.map_cons]; exact List.mem_cons_of_mem _ hb)
-    refine ⟨?_, ih hnc' hh.2⟩
-    have hr := hh.1
-    cases hop : r.op with
-    | req m u sel j =>
-      cases hout : r.out with
-      | early st body tag ra =>
-        cases ra with
-        | ns n => simp [cRecOk, hop, hout] at hr
-        | raw ra =>
-          simp only [cRecOk, hop, hout, List.any_eq_true] at hr ⊢
-          obtain ⟨r0, hm, hj⟩ := hr
-          refine ⟨r0, hm, ?_⟩
-          cases hop0 : r0.op with
-          | resp m0 u0 sel0 j0 r0r bl0 sz0 =>
-            simp only [cJustifies, hop0, if_true, Bool.and_eq_true, decide_eq_true_eq] at hj
-            have hsel : sel0 = sel := by
-              apply hnc r0.op (by simp only [List.map_cons]; exact List.mem_cons_of_mem _ (List.mem_map_of_mem hm))
-                r.op (by simp) sel0 j0 sel j
-              · rw [hop0]; rfl
-              · rw [hop]; rfl
-              · exact hj.1.1.1.1.1.1.1.2
-            simp only [cJustifies, hop0, Bool.false_eq_true, if_false, Bool.and_eq_true, decide_eq_true_eq]
-            obtain ⟨⟨⟨⟨⟨⟨⟨⟨⟨a1, a2⟩, _⟩, a4⟩, a5⟩, a6⟩, a7⟩, a8⟩, a9⟩, a10⟩ := hj
-            exact ⟨⟨⟨⟨⟨⟨⟨⟨⟨a1, a2⟩, hsel⟩, a4⟩, a5⟩, a6⟩, a7⟩, a8⟩, a9⟩, a10⟩
-          | req _ _ _ _ => simp [cJustifies, hop0] at hj
-          | fire _ => simp [cJustifies, hop0] at hj
-          | skip _ => simp [cJustifies, hop0] at hj
-          | adv _ => simp [cJustifies, hop0] at hj
-          | probe => simp [cJustifies, hop0] at hj
-      | noop => simp [cRecOk, hop, hout]
-      | fired _ => simp [cRecOk, hop, hout] at hr
-      | advd _ => simp [cRecOk, hop, hout] at hr
-      | unit => simp [cRecOk, hop, hout] at hr
-      | probed _ _ _ _ => simp [cRecOk, hop, hout] at hr
-    | resp _ _ _ _ _ _ _ => simp [cRecOk, hop]
-    | fire _ => simp [cRecOk, hop]
-    | skip _ => simp [cRecOk, hop]
-    | adv _ => simp [cRecOk, hop]
-    | probe =>
-      cases hout : r.out with
-      | probed a b c d => simpa [cRecOk, hop, hout] using hr
-      | noop => simp [cRecOk, hop, hout] at hr
-      | early _ _ _ _ => simp [cRecOk, hop, hout] at hr
-      | fired _ => simp [cRecOk, hop, hout] at hr
-      | advd _ => simp [cRecOk, hop, hout] at hr
-      | unit => simp [cRecOk, hop, hout] at hr
 
 end
 
